@@ -272,6 +272,7 @@ contract(
     name="kept",
     **COMMON,
     globals={"max": MAX_KEYS},
+    portfolio=["z3-5.1", "z3-5.1/noext"],  # (under load the outer step has been found by the no-extensionality configuration: make it the second attempt)
     ensures={
         "kept-anchors-are-members": f"all(result[k].name in {AL} and all(implies({_alive(_GK, 'b', 'len(' + _GK + ')')},"
         f" ({_GK}[b].number + 0) in mems[k] and {_GK}[b] in mems[k][{_GK}[b].number]) for b in range(len({_GK}))) for k in range(len(result)))",
